@@ -22,6 +22,7 @@ driver; `Cal.OkAt stdCal d` is proved for every day in Lemmas/C04Calendar.lean f
 (the driver still evaluates `Cal.okAtB` on every configuration line).
 -/
 import LinVerif.Model.Calendar
+import LinVerif.Generated.C04
 
 namespace LinVerif.Rollup
 
@@ -46,10 +47,17 @@ def IType.name : IType → String
 /-- Go conversion `uint16(x)` of an `int`/`int64` -/
 def u16 (x : Int) : Int := x % 65536
 
+/-- the two shapes of `(*month).CalcSlot`: `quot = false`: `((ts - base) % OneDay) / interval` (lindb
+before 46bbfe1), `quot = true`: `(ts - base) / interval`. Which one the code has is the regenerated
+fact `Generated.C04.monthSlotIsQuotient`; for `0 ≤ ts - base < 1d` (every timestamp of a month-type
+family in UTC) the two agree (`monthSlot_eq`, Lemmas/C04Arith.lean). -/
+def monthSlot (quot : Bool) (ts base iv : Int) : Int :=
+  if quot then Int.tdiv (ts - base) iv else Int.tdiv (Int.tmod (ts - base) oneDay) iv
+
 /-- `IntervalCalculator.CalcSlot(timestamp, baseTime, interval)` of the day / month / year calculator -/
 def calcSlotOf : IType → Int → Int → Int → Int
   | .day, ts, base, iv => Int.tdiv (Int.tmod (ts - base) oneHour) iv
-  | .month, ts, base, iv => Int.tdiv (Int.tmod (ts - base) oneDay) iv
+  | .month, ts, base, iv => monthSlot Generated.C04.monthSlotIsQuotient ts base iv
   | .year, ts, base, iv => Int.tdiv (ts - base) iv
 
 /-- the `rollup` struct of kv/family_rollup.go -/
@@ -399,7 +407,9 @@ def rollupRecs (σ : St) (fam : Nat) (ivs : List Iv) (avail : Iv → Bool) (dvs 
 
 /-- the operations of C04's histories -/
 inductive Op where
-  /-- flush of source family `fam` producing file number `file` (any number not handed out yet) -/
+  /-- flush of source family `fam` producing file number `file`: any (family, number) that no earlier
+  flush registered (a store hands out each file number once — C01; families of different source
+  stores are different `fam`s) -/
   | flush (fam file : Nat) (nonEmpty : Bool) (ivs : List Iv)
   /-- one run of `rollup()` of source family `fam`; `cut = some n`: the process dies after `n`
   committed records and is restarted -/
@@ -414,7 +424,7 @@ def sameMem {α : Type} [DecidableEq α] (a b : List α) : Bool :=
 
 def St.step (σ : St) : Op → St
   | .flush fam file ne ivs =>
-    if σ.next ≤ file then σ.apply (.flush (fam, file) ne ivs) else σ
+    if σ.registered.all (fun p => decide (p.1 ≠ (fam, file))) then σ.apply (.flush (fam, file) ne ivs) else σ
   | .rollup fam ivs avail dvs cut =>
     let rs := rollupRecs σ fam ivs (fun i => decide (i ∈ avail)) dvs
     σ.applyAll (match cut with | none => rs | some n => rs.take n)
